@@ -360,6 +360,9 @@ func c02() []*Ob {
 				}
 				c.Site(fn.Pos(), "the right-border search includes the left border")
 			}},
+		{Prop: "C02", ID: "C02.9", Engine: "FINITE(SCCP)", Floor: 4,
+			Desc:  "the tree that is evaluated means what was parsed: the negation push-down applied to every query before it is searched (propagateNot) rewrites each (operator, left negated, right negated) cell into an equivalent node, buildEvalTree reads NAnd in the child order it was written, and the root NOT is added exactly under the returned flag (shared rule with C12.4)",
+			Check: func(c *Ctx) { checkPropagateNot(c) }},
 		{Prop: "C02", ID: "C02.5", Engine: "DOM", Floor: 1,
 			Desc: "no repeated LID in a posting list: in frac.mergeSorted every element taken from the freshly queued list (which repeats a LID when a document carries the token twice) is appended only after the comparison with the previously appended value",
 			Check: func(c *Ctx) {
